@@ -50,7 +50,9 @@ func (u *Util) Format(b *bytes.Buffer, f string, args ...goja.Value) {
 				}
 			} else {
 				b.WriteByte('%')
-				b.WriteRune(chr)
+				if chr != '%' || len(args) == 0 {
+					b.WriteRune(chr)
+				}
 			}
 			pct = false
 		} else {
@@ -60,6 +62,9 @@ func (u *Util) Format(b *bytes.Buffer, f string, args ...goja.Value) {
 				b.WriteRune(chr)
 			}
 		}
+	}
+	if pct {
+		b.WriteByte('%')
 	}
 
 	for _, arg := range args[argNum:] {
